@@ -121,6 +121,30 @@ func genSched(tier string, seed uint64) {
 			emit("sched %s %s %s %d", d.format, d.hex, schedStr(randSched(r, n)), r.intn(2))
 		}
 	}
+	// long items delivered one byte per read with k empty reads before EVERY byte: hundreds of empty reads in
+	// total inside one multi-byte read, never more than k in a row
+	longDocs := []struct{ format, hex string }{
+		{"cbor", "7896" + strings.Repeat("61", 150)},
+		{"cbor", "5828" + strings.Repeat("07", 40)},
+		{"cbor", "5f583c" + strings.Repeat("01", 60) + "4102ff"},
+		{"cbor", "82" + "7830" + strings.Repeat("62", 48) + "7830" + strings.Repeat("63", 48)},
+		{"json", "22" + strings.Repeat("61", 150) + "22"},
+		{"json", "5b" + strings.Repeat("31", 120) + "5d"},
+	}
+	for _, d := range longDocs {
+		n := len(d.hex) / 2
+		for k := 1; k <= 3; k++ {
+			var c []int
+			for i := 0; i < n; i++ {
+				for j := 0; j < k; j++ {
+					c = append(c, 0)
+				}
+				c = append(c, 1)
+			}
+			emit("sched %s %s %s 0", d.format, d.hex, schedStr(c))
+			emit("sched %s %s %s 1", d.format, d.hex, schedStr(c))
+		}
+	}
 	// random documents, random schedules
 	nd := 3000
 	if tier == "thorough" {
